@@ -21,6 +21,7 @@ import XlModel.Lemmas.SaveMerge
 import XlModel.Lemmas.SaveSst
 import XlModel.Lemmas.SaveBook2
 import XlModel.Lemmas.SaveBook3
+import XlModel.Lemmas.SaveBook4
 import XlModel.Lemmas.SaveCols
 import XlModel.Generated.FactsC01
 
@@ -437,6 +438,18 @@ theorem inv_step_row_attr (rows : List Row) (h : Dense rows) (i : Nat) (hi : i <
     Dense (SaveBook.writeRowAttr rows i f) ∧
       ∀ a b, Grid.abs (SaveBook.writeRowAttr rows i f) a b = Grid.abs rows a b :=
   ⟨SaveBook.writeRowAttr_dense rows i f h hi, SaveBook.writeRowAttr_abs rows i f⟩
+
+/-- **inv_step (SetCellStyle over a rectangle)**: on a dense worksheet whose cells satisfy the cell
+invariant (a cell with an inline string also has a type, a value or a formula), styling any rectangle
+inside the grid keeps the worksheet dense, keeps the cell invariant, and changes nothing but style ids:
+the payload without the style id is the same at every position. (`SetColStyle` and `SetRowStyle` style
+existing cells through the same path; their `<cols>` part is covered by `inv_step_cols`.) -/
+theorem inv_step_cell_style (rows : List Row) (h : Dense rows) (hg : SaveBook.GridInv rows)
+    (i1 j1 i2 j2 st : Nat) (hi : i2 < Facts.TotalRows) (hj : j2 < Facts.MaxColumns) :
+    Dense (SaveBook.styleRect rows i1 j1 i2 j2 st) ∧ SaveBook.GridInv (SaveBook.styleRect rows i1 j1 i2 j2 st) ∧
+    ∀ a b, SaveBook.eraseS (Grid.abs (SaveBook.styleRect rows i1 j1 i2 j2 st) a b) =
+      SaveBook.eraseS (Grid.abs rows a b) :=
+  SaveBook.style_fold _ rows st h hg (SaveBook.positions_bound i1 j1 i2 j2 hi hj)
 
 /-- the modelled setters meet the conditions of `inv_step_write` -/
 theorem setInt_setBool_ok (n : Int) (b : Bool) :
